@@ -6,5 +6,6 @@ From Zix.gen Require Import Constants.
 Local Open Scope Z_scope.
 
 Theorem ns_per_second_is_model : Sem.ns_per_second = SemModel.NS_PER_SECOND.
-Proof. reflexivity. Qed.
+Proof. reflexivity.
+Qed.
 Print Assumptions ns_per_second_is_model.
